@@ -1,6 +1,7 @@
 package main
 
 import (
+	"regexp"
 	"strings"
 
 	"golang.org/x/tools/go/ssa"
@@ -43,6 +44,115 @@ func storeSetRule(o *Ob) {
 			o.Check(strings.HasPrefix(e.X(fn, m.Key), "(*model.Alert).Name(p0") && e.X(fn, m.Value) == "am/limit.NewBucket(recv.perAlertLimit)", "set-bucket", "the limit bucket must be created per alert name with the configured capacity", in)
 		}
 	}
+}
+
+// limitWiringRule: a limit that is enforced correctly against the wrong number is not enforced.
+// (1) main: the four limit flags fill the options of their names; (2) setup hands PerAlertNameLimit to
+// mem.NewAlerts, the silence limits as functions returning their own option, GetConcurrency to the API;
+// (3) mem.NewAlerts builds its store with that limit, WithPerAlertLimit keeps it, silence.New keeps
+// Options.Limits, api.New sizes the semaphore with Options.Concurrency when it is positive.
+func limitWiringRule(o *Ob) {
+	e := o.E
+	// (1)
+	run := o.Fn("am/cmd/alertmanager.run")
+	flags := map[string]string{
+		"MaxSilences":         "silences.max-silences",
+		"MaxSilenceSizeBytes": "silences.max-silence-size-bytes",
+		"PerAlertNameLimit":   "alerts.per-alertname-limit",
+		"GetConcurrency":      "web.get-concurrency",
+	}
+	for _, f := range []string{"GetConcurrency", "MaxSilenceSizeBytes", "MaxSilences", "PerAlertNameLimit"} {
+		sts := e.StoresToField(run, "am/app.Options", f)
+		if !o.Check(len(sts) == 1, "flag|"+f, "the option "+f+" must be filled from its command-line flag, exactly once", fnFirst(run)) {
+			continue
+		}
+		o.Site(sts[0], "Options."+f+" := flag "+flags[f])
+		var names []string
+		for _, m := range regexp.MustCompile(`kingpin/v2\.Flag\(("[^"]*")`).FindAllStringSubmatch(e.X(run, sts[0].Val), -1) {
+			names = append(names, m[1])
+		}
+		o.Check(len(names) == 1 && names[0] == `"`+flags[f]+`"`, "flag-source|"+f, "the option "+f+" is filled from "+strings.Join(names, ",")+", not from --"+flags[f], sts[0])
+	}
+	// (2)
+	setup := o.Fn("(*am/app.App).setup")
+	na := o.One(e.Calls(setup, "am/provider/mem.NewAlerts"), "setup-alerts", "setup must create the alert provider", setup)
+	o.Site(na, "mem.NewAlerts(…, "+e.Arg(na, 2)+", …)")
+	o.Check(strings.HasSuffix(e.Arg(na, 2), "am/app.Options.PerAlertNameLimit"), "setup-per-name", "the alert provider is created with "+clip(e.Arg(na, 2))+" as per-name limit, not with Options.PerAlertNameLimit", na)
+	for _, f := range []string{"MaxSilences", "MaxSilenceSizeBytes"} {
+		sts := e.StoresToField(setup, "am/silence.Limits", f)
+		if !o.Check(len(sts) == 1, "setup-sil|"+f, "setup must hand the silence limit "+f+" to the silence store", fnFirst(setup)) {
+			continue
+		}
+		fv := e.FuncValue(sts[0].Val)
+		if !o.Check(fv != nil, "setup-sil-fn|"+f, "the silence limit "+f+" is not a resolvable function: "+clip(e.X(setup, sts[0].Val)), sts[0]) {
+			continue
+		}
+		for _, ret := range (&Walk{Fn: fv}).FromEntry().Returns() {
+			v := e.X(fv, ret.Results[0])
+			o.Site(ret, "silence limit "+f+" = "+v)
+			o.Check(strings.HasSuffix(v, "am/app.Options."+f), "setup-sil-value|"+f, "the silence limit "+f+" answers "+clip(v)+", not Options."+f, ret)
+		}
+	}
+	sn := o.One(e.Calls(setup, "am/silence.New"), "setup-silences", "setup must create the silence store", setup)
+	for _, f := range []string{"MaxSilences", "MaxSilenceSizeBytes"} {
+		for _, st := range e.StoresToField(setup, "am/silence.Limits", f) {
+			o.Check(!(&Walk{Fn: setup}).After(sn).Has(st), "setup-sil-late|"+f, "the silence limit is set after the store was created from the options (the store keeps a copy)", st)
+		}
+	}
+	cs := e.StoresToField(setup, "am/api.Options", "Concurrency")
+	if o.Check(len(cs) == 1, "setup-conc", "setup must hand the GET concurrency to the API", fnFirst(setup)) {
+		v := e.X(setup, cs[0].Val)
+		o.Site(cs[0], "api.Options.Concurrency := "+v)
+		o.Check(strings.HasSuffix(v, "am/app.Options.GetConcurrency"), "setup-conc-value", "the API's GET concurrency is "+clip(v)+", not Options.GetConcurrency", cs[0])
+	}
+	// (3)
+	mn := o.Fn("am/provider/mem.NewAlerts")
+	wl := o.One(e.Calls(mn, "(*am/store.Alerts).WithPerAlertLimit"), "mem-limit", "the provider's store must be given the per-name limit", mn)
+	o.Site(wl, e.X(mn, wl.(*ssa.Call)))
+	o.Check(e.Arg(wl, 1) == "p2", "mem-limit-arg", "the provider's store is limited to "+e.Arg(wl, 1)+", not to the limit NewAlerts was given", wl)
+	as := e.StoresToField(mn, "am/provider/mem.Alerts", "alerts")
+	if o.Check(len(as) >= 1, "mem-store", "NewAlerts no longer fills the provider's store", fnFirst(mn)) {
+		for _, st := range as {
+			o.Check(e.DerivesFrom(st.Val, false, func(v ssa.Value) bool { return v == ssa.Value(wl.(*ssa.Call)) }), "mem-store-limited", "the provider's store is not the one that was given the limit: "+clip(e.X(mn, st.Val)), st)
+		}
+	}
+	wp := o.Fn("(*am/store.Alerts).WithPerAlertLimit")
+	ps := e.StoresTo(wp, "recv.perAlertLimit")
+	if o.Check(len(ps) == 1, "store-limit", "WithPerAlertLimit must keep the limit", fnFirst(wp)) {
+		o.Site(ps[0], "perAlertLimit := "+e.X(wp, ps[0].Val))
+		o.Check(e.X(wp, ps[0].Val) == "p0", "store-limit-value", "WithPerAlertLimit keeps "+e.X(wp, ps[0].Val)+", not the limit it was given", ps[0])
+	}
+	for _, ret := range (&Walk{Fn: wp}).FromEntry().Returns() {
+		o.Check(e.X(wp, ret.Results[0]) == "recv", "store-limit-ret", "WithPerAlertLimit must return the store it configured", ret)
+	}
+	snew := o.Fn("am/silence.New")
+	ls := e.StoresToField(snew, "am/silence.Silences", "limits")
+	if o.Check(len(ls) == 1, "sil-limits", "silence.New must keep the limits of its options", fnFirst(snew)) {
+		v := e.X(snew, ls[0].Val)
+		o.Site(ls[0], "Silences.limits := "+v)
+		o.Check(strings.HasSuffix(v, "am/silence.Options.Limits"), "sil-limits-value", "the silence store keeps "+clip(v)+" as its limits, not Options.Limits", ls[0])
+	}
+	an := o.Fn("am/api.New")
+	var mc *ssa.MakeChan
+	for _, st := range e.StoresToField(an, "am/api.API", "inFlightSem") {
+		mc, _ = st.Val.(*ssa.MakeChan)
+		o.Check(mc != nil, "api-sem", "the GET semaphore must be a buffered channel made in New, is "+clip(e.X(an, st.Val)), st)
+	}
+	if o.Check(mc != nil, "api-sem", "api.New no longer creates the GET semaphore", fnFirst(an)) {
+		unset := LRe(`^\(&?[a-z]+:?am/api\.Options\.Concurrency < 1\)$|^\(p0\.Concurrency < 1\)$`, true)
+		if o.Check(e.CountLitEdges(an, unset)+e.CountLitEdges(an, unset.Neg()) > 0, "api-sem-default", "api.New no longer distinguishes a configured GET concurrency from the default", mc) {
+			r := (&Walk{Fn: an, Cut: e.CutContradicting(unset.Neg())}).FromEntry()
+			for _, v := range e.ValStrs(an, e.ValsAt(r, mc, mc.Size)) {
+				o.Site(mc, "semaphore capacity (configured) = "+v)
+				o.Check(strings.HasSuffix(v, "am/api.Options.Concurrency") || v == "p0.Concurrency", "api-sem-size", "with a configured GET concurrency the semaphore holds "+clip(v)+" requests, not Options.Concurrency", mc)
+			}
+			r2 := (&Walk{Fn: an, Cut: e.CutContradicting(unset)}).FromEntry()
+			for _, v := range e.ValStrs(an, e.ValsAt(r2, mc, mc.Size)) {
+				o.Check(!strings.HasSuffix(v, "Options.Concurrency"), "api-sem-zero", "without a configured GET concurrency the semaphore would have capacity "+clip(v)+" (≤ 0: every GET refused or blocked)", mc)
+			}
+		}
+	}
+	o.MinSites(10)
 }
 
 func init() {
@@ -221,6 +331,8 @@ func init() {
 		}
 		o.MinSites(3)
 	})
+
+	reg("C18", "C18.9", "T4,T11", "the configured limits are the ones enforced: each command-line limit reaches the option of its name, and each option reaches its own mechanism (bucket capacity, silence count and size limits, GET semaphore capacity)", limitWiringRule)
 
 	reg("C18", "C18.4", "T1,T2", "silence limits are checked (count: len(st)+1 > max; size) before any mutation; a rejected create or edit leaves existing silences untouched", func(o *Ob) {
 		f := resolveSilSet(o)
